@@ -8,4 +8,4 @@ Extraction "model.ml"
   Dec.dec_mul Dec.dec_quo Dec.dec_mulint Dec.dec_trunc_int Dec.dec_round_int Dec.dec_trunc_dec
   Orderbook.payout_profit Orderbook.bet_amount_int Orderbook.fulfil_records Orderbook.withdrawable_amount
   Mint.current_phase Mint.block_provisions Mint.next_phase_provisions Mint.begin_block Mint.mparams_valid
-  Chain.step Chain.init Chain.run.
+  Chain.step Chain.gstep Chain.init Chain.run.
